@@ -157,7 +157,7 @@ func checkC06(c *ev.Ctx) {
 	c.Assume("internal/ref's .lzma decoder defines what is encoded (number of bytes, end marker)")
 	n := 1500
 	if thorough(c) {
-		n = 20000
+		n = 80000
 	}
 	cases := lzCases(c.Seed, 6, n, false)
 	c.MinEvals(int64(n / 2))
